@@ -170,6 +170,8 @@ uint8_t MD_Channel::get_psg_volume(uint16_t volume) const
 //! Platform-exclusive command parser
 uint32_t MD_Channel::parse_platform_event(const Tag& tag, int16_t* platform_state)
 {
+	if(tag.empty())
+		error("empty platform command");
 	if(iequal(tag[0], "mode"))
 	{
 		if(tag.size() < 2)
